@@ -27,7 +27,9 @@ TABLE = {
             ('OpyVerif.Generated.Constants', 'Opy.Gen', r'floatMax_is_sys_max'),
             ('OpyVerif.Generated.Skeletons', 'Opy.Gen', r'skel_\w+_good'),
             ('OpyVerif.Proofs.TaskRun', 'Opy', r'^(sweepPop_best|sweepPop_best_from|bestInv_execEv|task_best|task_best_evaluated|rule_best|sweepAgent_fit_le)$'),
-            ('OpyVerif.Proofs.TaskRunCode', 'Opy', r'code_task_best$|isRule')],
+            ('OpyVerif.Proofs.TaskRunCode', 'Opy', r'code_task_best$|isRule'),
+            ('OpyVerif.Proofs.TaskTrial', 'Opy', r'^(runOps_one|accept_bound|trialStep_bound|greedyUpdate_bound|trialBound_execEv|ginv2_exec|task_greedy_best_is_min)$'),
+            ('OpyVerif.Proofs.TaskTrialCode', 'Opy', r'code_task_greedy_best_is_min|code_sites_one_eval|code_greedySites_ok|code_trialSites_ok')],
     'C03': [('OpyVerif.Proofs.C03', 'Opy', None),
             ('OpyVerif.Proofs.C03norm', 'Opy', None), ('OpyVerif.Proofs.C03onlooker', 'Opy', None),
             ('OpyVerif.Proofs.Budget', 'Opy', None), ('OpyVerif.Generated.Budget', 'Opy.Gen', None),
